@@ -31,6 +31,9 @@ OUTCOMES = {
     'badjson': (('status', 200), ('status', 200, 'badjson')),
     '500-user': (('status', 500), ('status', 500, {'error': 'internal'})),
     '403-groups': (('status', 200), ('status', 403, {'groups': ['Leaked']})),
+    '500-user-only': (('status', 500), ('status', 200, {'groups': ['Group A']})),
+    '204-user': (('status', 204), ('status', 200, {'groups': ['Group A']})),
+    '500-groups': (('status', 200), ('status', 500, {})),
 }
 
 
@@ -155,7 +158,7 @@ def run(ctx):
     ctx.cov['rule'] = (
         'full product: certificate {absent; 0/1/2 common names x EKU absent/serverAuth only/clientAuth(/both)} x '
         'enable_tls_client_auth {on, off} x plugin configuration {none; disabled 4 ways; unsupported/prefix names; one SLUGS '
-        'block with each of 10 service behaviours (200, no groups key, 404 user, 404 groups, unreachable, bad JSON, 500, 403) or no/'
+        'block with each of 13 service behaviours (200, no groups key, empty groups, 404 user, 404 groups, unreachable, groups unreachable, bad JSON, 500/204 user, 403/500 groups) or no/'
         'non-string url; two blocks over the product of behaviours; mixed unsupported/disabled/enabled} x one connection '
         '[valid Create, malformed frame, valid Get] against the real session with a real engine.  Every cell is run; a case is '
         'distinct by (certificate shape, flag, configuration).')
